@@ -615,6 +615,8 @@ BODIES = [
     ("DAC_VLS_ctor", "utils/DAC_VLS.cpp", "DAC_VLS::DAC_VLS", 1),
     ("DAC_VLS_access", "utils/DAC_VLS.cpp", "DAC_VLS::access", 0),
     ("DAC_VLS_access_next", "utils/DAC_VLS.cpp", "DAC_VLS::access_next", 0),
+    ("DAC_VLS_save", "utils/DAC_VLS.cpp", "DAC_VLS::save", 0),
+    ("DAC_VLS_load", "utils/DAC_VLS.cpp", "DAC_VLS::load", 0),
     ("bitwisehash", "Hash/HashUtils.h", "bitwisehash", 0),
     ("step_value", "Hash/HashUtils.h", "step_value", 0),
     ("nearest_prime", "Hash/HashUtils.h", "nearest_prime", 0),
@@ -652,11 +654,14 @@ BODIES = [
     ("RG_rank1", "libcds/src/bitsequence/BitSequenceRG.cpp", "BitSequenceRG::rank1", 0),
     ("RG_select1", "libcds/src/bitsequence/BitSequenceRG.cpp", "BitSequenceRG::select1", 0),
     ("RG_select0", "libcds/src/bitsequence/BitSequenceRG.cpp", "BitSequenceRG::select0", 0),
+    ("RG_save", "libcds/src/bitsequence/BitSequenceRG.cpp", "BitSequenceRG::save", 0),
+    ("RG_load", "libcds/src/bitsequence/BitSequenceRG.cpp", "BitSequenceRG::load", 0),
+    ("RG_BuildRank", "libcds/src/bitsequence/BitSequenceRG.cpp", "BitSequenceRG::BuildRank", 0),
+    ("RG_BuildRankSub", "libcds/src/bitsequence/BitSequenceRG.cpp", "BitSequenceRG::BuildRankSub", 0),
     ("DecodingTable_getSubstring", "utils/Coder/DecodingTable.cpp", "DecodingTable::getSubstring", 0),
     ("DecodingTable_processChunk", "utils/Coder/DecodingTable.cpp", "DecodingTable::processChunk", 0),
     ("StatCoder_encodeSymbol", "utils/Coder/StatCoder.cpp", "StatCoder::encodeSymbol", 0),
     ("StatCoder_encodeString", "utils/Coder/StatCoder.cpp", "StatCoder::encodeString", 0),
-    ("RG_BuildRank", "libcds/src/bitsequence/BitSequenceRG.cpp", "BitSequenceRG::BuildRank", 0),
 ]
 
 
